@@ -134,7 +134,9 @@ namespace occa {
             success = up->addToScope(enumType, force);
           }
         }
-        if (!success) {
+        // A struct / enum typedef was allocated by the declaration itself
+        //   and is still referenced by the variable
+        if (!success && !(typedefingStruct || typedefingEnum)) {
           delete type;
         }
       } else if (var.vartype.definesStruct() || var.vartype.definesEnum()) {
